@@ -218,6 +218,8 @@ def tensor_cuts():
         if not lib.in_space(I, fr, x1, self) or not lib.in_space(I, fr, x2, self):
             lib.raise_(I, TE, 'not an element of the space')
         b = builder(self)
+        if getattr(fr.st, 'inner_fn', None) is not None:
+            return fr.st.inner_fn(I, fr, self, content(x1), content(x2))
         if getattr(fr.st, 'inner_mode', 'sum') == 'gram':
             return oplib.inner(I, fr, self, content(x1), content(x2))
         return fr.st.reductions.reduce(fr, 'sum', inner_term(b, content(x1), content(x2)))
@@ -228,7 +230,9 @@ def tensor_cuts():
         b = builder(self)
         if b.exponent != 2.0:
             raise Unsupported('norm with exponent != 2 in the abstract tensor space')
-        if getattr(fr.st, 'inner_mode', 'sum') == 'gram':
+        if getattr(fr.st, 'inner_fn', None) is not None:
+            ip_ = fr.st.inner_fn(I, fr, self, content(x), content(x))
+        elif getattr(fr.st, 'inner_mode', 'sum') == 'gram':
             ip_ = oplib.inner(I, fr, self, content(x), content(x))
         else:
             ip_ = fr.st.reductions.reduce(fr, 'sum', inner_term(b, content(x), content(x)))
@@ -243,7 +247,10 @@ def tensor_cuts():
             lib.raise_(I, TE, 'not an element of the space')
         b = builder(self)
         d = VLin([(1, content(x1)), (-1, content(x2))])
-        ip_ = fr.st.reductions.reduce(fr, 'sum', inner_term(b, d, d))
+        if getattr(fr.st, 'inner_fn', None) is not None:
+            ip_ = fr.st.inner_fn(I, fr, self, d, d)
+        else:
+            ip_ = fr.st.reductions.reduce(fr, 'sum', inner_term(b, d, d))
         re = ip_.real if isinstance(ip_, C) else ip_
         fr.st.assume(re >= 0)
         return core.ssqrt(re)
